@@ -149,10 +149,13 @@ UNITS.append(dataclass_unit("C06"))
 from contracts.class_type import class_type_unit  # noqa: E402
 UNITS.append(class_type_unit("C06"))
 
+from contracts.validate_unit import strip_unknown_unit, validate_unit  # noqa: E402
+UNITS += [validate_unit("C06"), strip_unknown_unit("C06")]
+
 VERIFIED_CALLEES = ("check_required",)
 LEVEL = "other"
 TECHNIQUE = "contract-based deductive verification of validate's nested check functions (VCs from the real AST, recursion by contract) + bounded run-time contract checking: one foreign key inserted / one required key removed at every tree position"
-LEVEL_TEXT = "Verified: validate's check_required returns normally only if every required key is present and not None and recurses into the selected subcommand's own section; check_values returns normally only if every key has an action, is a branch of declared keys or lies under a parent action checked in the same pass, else NSKeyError naming the key, and checks every key by (its own action, its value, the key, the whole configuration); the classifiers it relies on: _is_branch_key (a string prefix of a declared name is not a branch - symbolic strings), _find_action_and_subcommand, _find_parent_action_and_subcommand; _apply_actions and _check_value_key; leftover argv is never accepted (parse_args unit), _positional_optionals drops no leftover token, parse_known_args refuses foreign callers; class parsers validate init_args also when only class_path is given (adapt_class_type). Bounded only: one foreign key inserted / one required key removed at every position of 9 parser shapes x 12 channels."
+LEVEL_TEXT = "Verified: validate itself always runs check_values on a clone (under the branch key when given) and check_required unless skip_required / lenient, re-raising TypeError/KeyError as the same class; strip_unknown keeps exactly the keys with an action or meta keys; validate's check_required returns normally only if every required key is present and not None and recurses into the selected subcommand's own section; check_values returns normally only if every key has an action, is a branch of declared keys or lies under a parent action checked in the same pass, else NSKeyError naming the key, and checks every key by (its own action, its value, the key, the whole configuration); the classifiers it relies on: _is_branch_key (a string prefix of a declared name is not a branch - symbolic strings), _find_action_and_subcommand, _find_parent_action_and_subcommand; _apply_actions and _check_value_key; leftover argv is never accepted (parse_args unit), _positional_optionals drops no leftover token, parse_known_args refuses foreign callers; class parsers validate init_args also when only class_path is given (adapt_class_type). Bounded only: one foreign key inserted / one required key removed at every position of 9 parser shapes x 12 channels."
 LEVEL_NOTE = "under construction"
 EXPLANATION = "under construction"
 ASSUMPTIONS = []
